@@ -30,13 +30,10 @@ def c01() -> List[M]:
           "                self.response_future.set_exception(RequestRejectedException())\n",
           "                self.response_future.set_result(data)\n", "C01.R1"),
         M("C01", "deliver-other-value", P,
-          "                self._retry = 0\n                self.response_future.set_result(data)\n            else:\n                logger.debug(\"Received invalid response: %s\", data.hex())\n                self.response_future.set_exception",
-          "                self._retry = 0\n                self.response_future.set_result(self._partial_data or data)\n            else:\n                logger.debug(\"Received invalid response: %s\", data.hex())\n                self.response_future.set_exception",
+          "                self.response_future.set_result(data)\n            else:\n                logger.debug(\"Received invalid response: %s\", data.hex())\n                self._retry = 0",
+          "                self.response_future.set_result(self._partial_data or data)\n            else:\n                logger.debug(\"Received invalid response: %s\", data.hex())\n                self._retry = 0",
           "C01.R1"),
-        M("C01", "deliver-in-error-received", P,
-          "        logger.debug(\"Received error: %s\", exc)\n        self.response_future.set_exception(exc)\n        self._close_transport()\n\n    async def send_request(self, command: ProtocolCommand) -> Future:\n        \"\"\"Send message via transport\"\"\"\n        await self._ensure_lock().acquire()\n        try:\n            await self._connect()",
-          "        logger.debug(\"Received error: %s\", exc)\n        self.response_future.set_result(b'')\n        self._close_transport()\n\n    async def send_request(self, command: ProtocolCommand) -> Future:\n        \"\"\"Send message via transport\"\"\"\n        await self._ensure_lock().acquire()\n        try:\n            await self._connect()",
-          "C01.R1"),
+        M("C01", "deliver-in-error-received", P, "        self._retry = 0\n        self.response_future.set_exception(exc)\n", "        self._retry = 0\n        self.response_future.set_result(b'')\n", "C01.R1"),
         M("C01", "concat-after-validation", P,
           "            if self.command.validator(data):\n                logger.debug(\"Received: %s\", data.hex())\n                self._retry = 0\n                self.response_future.set_result(data)\n            else:\n                logger.debug(\"Received invalid response: %s\", data.hex())\n                asyncio",
           "            if self.command.validator(data):\n                logger.debug(\"Received: %s\", data.hex())\n                self._retry = 0\n                data = data + b''\n                self.response_future.set_result(data)\n            else:\n                logger.debug(\"Received invalid response: %s\", data.hex())\n                asyncio",
@@ -65,11 +62,10 @@ def c01() -> List[M]:
         M("C01", "tcp-write-accepts-multi-as-other", MB, "    elif data[7] in (MODBUS_WRITE_CMD, MODBUS_WRITE_MULTI_CMD):\n        if len(data) < 12:",
           "    elif data[7] in (MODBUS_WRITE_CMD,):\n        if len(data) < 12:", "C01.R2"),
         M("C01", "aa55-too-long-tolerated", P, "        elif len(data) > data[6] + 9:", "        elif len(data) > data[6] + 19:", "C01.R2"),
-        M("C01", "aa55-checksum-compare-weakened", P, "        if checksum != int.from_bytes(data[-2:], byteorder=\"big\", signed=True):",
-          "        if checksum < int.from_bytes(data[-2:], byteorder=\"big\", signed=True):", "C01.R2"),
+        M("C01", "aa55-checksum-compare-weakened", P, "        if (checksum & 0xFFFF) != int.from_bytes(data[-2:],", "        if (checksum & 0xFFFF) < int.from_bytes(data[-2:],", "C01.R2"),
         M("C01", "aa55-type-compare-weakened", P, "            if int(response_type, 16) != data_rt_int:", "            if int(response_type, 16) < data_rt_int:", "C01.R2"),
-        M("C01", "aa55-checksum-skips-header", P, "        for each in data[:-2]:\n            checksum += each\n        if checksum !=",
-          "        for each in data[4:-2]:\n            checksum += each\n        if checksum !=", "C01.R2"),
+        M("C01", "aa55-checksum-skips-header", P, "        for each in data[:-2]:\n            checksum += each\n        if (checksum",
+          "        for each in data[4:-2]:\n            checksum += each\n        if (checksum", "C01.R2"),
         M("C01", "benign-tcp-reorder-checks", MB,
           "        expected_length = data[8] + 9\n        if len(data) < expected_length:\n            raise PartialResponseException(len(data), expected_length)\n        if data[8] != value * 2:\n            logger.debug(\"Response has unexpected length: %d, expected %d.\", data[8], value * 2)\n            return False\n",
           "        if data[8] != value * 2:\n            logger.debug(\"Response has unexpected length: %d, expected %d.\", data[8], value * 2)\n            return False\n        expected_length = 9 + data[8]\n        if expected_length > len(data):\n            raise PartialResponseException(len(data), expected_length)\n",
@@ -78,8 +74,8 @@ def c01() -> List[M]:
           "int.from_bytes(data[checksum_offset:checksum_offset + 2], byteorder='little', signed=False)", "clean"),
         M("C01", "benign-crc-bitor", MB, "((data[checksum_offset + 1] << 8) + data[checksum_offset])",
           "((data[checksum_offset + 1] << 8) | data[checksum_offset])", "clean"),
-        M("C01", "benign-aa55-sum-builtin", P, "        checksum = 0\n        for each in data[:-2]:\n            checksum += each\n        if checksum !=",
-          "        checksum = sum(data[:-2])\n        if checksum !=", "clean"),
+        M("C01", "benign-aa55-sum-builtin", P, "        checksum = 0\n        for each in data[:-2]:\n            checksum += each\n        if (checksum",
+          "        checksum = sum(data[:-2])\n        if (checksum", "clean"),
         # R3
         M("C01", "rtu-reject-before-crc", MB, "    checksum_offset = expected_length - 2\n    if _modbus_checksum(data[2:checksum_offset])",
           "    if data[3] != cmd:\n        raise RequestRejectedException(FAILURE_CODES.get(data[4], \"UNKNOWN\"))\n    checksum_offset = expected_length - 2\n    if _modbus_checksum(data[2:checksum_offset])",
@@ -153,8 +149,8 @@ def c09() -> List[M]:
         M("C09", "es-firmware-int-unprotected", ES, "        except ValueError:\n            logger.exception(\"Error decoding firmware version %s.\", self.firmware)",
           "        except KeyError:\n            logger.exception(\"Error decoding firmware version %s.\", self.firmware)", "C09.R1"),
         M("C09", "search-uses-ascii-decode", INIT, "            return result.response_data()\n", "            return result.response_data().decode(\"ascii\").encode(\"ascii\")\n", "C09.R1"),
-        M("C09", "udp-invalid-state-handler-removed", P, "        except asyncio.InvalidStateError:\n            logger.debug(\"Response already handled: %s\", data.hex())\n        except RequestRejectedException as ex:\n            logger.debug(\"Received exception response: %s\", data.hex())\n            if self.response_future and not self.response_future.done():\n                self.response_future.set_exception(ex)\n            self._close_transport()",
-          "        except RequestRejectedException as ex:\n            logger.debug(\"Received exception response: %s\", data.hex())\n            if self.response_future and not self.response_future.done():\n                self.response_future.set_exception(ex)\n            self._close_transport()", "C09.R2"),
+        M("C09", "udp-invalid-state-handler-removed", P, "        except asyncio.InvalidStateError:\n            logger.debug(\"Response already handled: %s\", data.hex())\n        except RequestRejectedException as ex:\n            logger.debug(\"Received exception response: %s\", data.hex())\n            self._retry = 0\n            if self.response_future and not self.response_future.done():\n                self.response_future.set_exception(ex)\n            self._close_transport()",
+          "        except RequestRejectedException as ex:\n            logger.debug(\"Received exception response: %s\", data.hex())\n            self._retry = 0\n            if self.response_future and not self.response_future.done():\n                self.response_future.set_exception(ex)\n            self._close_transport()", "C09.R2"),
         M("C09", "tcp-rejected-handler-unguarded", P, "            if self.response_future and not self.response_future.done():\n                self.response_future.set_exception(ex)\n            # self._close_transport()",
           "            self.response_future.set_exception(ex)\n            # self._close_transport()", "C09.R2"),
         M("C09", "counter-not-reset-on-success", INV, "            self._consecutive_failures_count = 0\n            return result", "            return result", "C09.R3"),
@@ -178,8 +174,8 @@ def c04() -> List[M]:
         M("C04", "tcp-timer-wrong-callback", P, "        self._transport.write(payload)\n        " + ARM, "        self._transport.write(payload)\n        self._timer = asyncio.get_running_loop().call_later(self.timeout, self._close_transport)", "C04.R1"),
         M("C04", "udp-timer-handle-dropped", P, "        self._transport.sendto(payload)\n        " + ARM, "        self._transport.sendto(payload)\n        asyncio.get_running_loop().call_later(self.timeout, self._timeout_mechanism)", "C04.R1"),
         M("C04", "udp-invalid-datagram-ignored", P, "                asyncio.get_running_loop().call_soon(self._timeout_mechanism)\n", "                pass\n", "C04.R2"),
-        M("C04", "udp-partial-no-rearm", P, "            self._partial_missing = ex.expected - ex.length\n            " + ARM + "\n        except asyncio.InvalidStateError:\n            logger.debug(\"Response already handled: %s\", data.hex())\n        except RequestRejectedException as ex:\n            logger.debug(\"Received exception response: %s\", data.hex())\n            if self.response_future and not self.response_future.done():\n                self.response_future.set_exception(ex)\n            self._close_transport()",
-          "            self._partial_missing = ex.expected - ex.length\n        except asyncio.InvalidStateError:\n            logger.debug(\"Response already handled: %s\", data.hex())\n        except RequestRejectedException as ex:\n            logger.debug(\"Received exception response: %s\", data.hex())\n            if self.response_future and not self.response_future.done():\n                self.response_future.set_exception(ex)\n            self._close_transport()", "C04.R2"),
+        M("C04", "udp-partial-no-rearm", P, "            self._partial_missing = ex.expected - ex.length\n            " + ARM + "\n        except asyncio.InvalidStateError:\n            logger.debug(\"Response already handled: %s\", data.hex())\n        except RequestRejectedException as ex:\n            logger.debug(\"Received exception response: %s\", data.hex())\n            self._retry = 0\n            if self.response_future and not self.response_future.done():\n                self.response_future.set_exception(ex)\n            self._close_transport()",
+          "            self._partial_missing = ex.expected - ex.length\n        except asyncio.InvalidStateError:\n            logger.debug(\"Response already handled: %s\", data.hex())\n        except RequestRejectedException as ex:\n            logger.debug(\"Received exception response: %s\", data.hex())\n            self._retry = 0\n            if self.response_future and not self.response_future.done():\n                self.response_future.set_exception(ex)\n            self._close_transport()", "C04.R2"),
         M("C04", "tcp-invalid-response-ignored", P, "                self.response_future.set_exception(RequestRejectedException())\n                self._close_transport()\n", "                pass\n", "C04.R2"),
         M("C04", "udp-rejected-not-delivered", P, "            if self.response_future and not self.response_future.done():\n                self.response_future.set_exception(ex)\n            self._close_transport()\n", "            pass\n", "C04.R2"),
         M("C04", "udp-timeout-does-not-cancel", P, "            if self.response_future and not self.response_future.done():\n                self.response_future.cancel()\n\n    async def close(self):", "            pass\n\n    async def close(self):", "C04.R3"),
@@ -227,6 +223,32 @@ def c05() -> List[M]:
         M("C05", "ensure-lock-keeps-old-transport", P, "        self._running_loop = asyncio.get_event_loop()\n        self._close_transport()\n", "        self._running_loop = asyncio.get_event_loop()\n", "C05.R3"),
         M("C05", "ensure-lock-ignores-loop", P, "        if self._lock and self._running_loop == asyncio.get_event_loop():", "        if self._lock:", "C05.R3"),
         M("C05", "benign-keyword-arguments", INIT, "        inv = ET(host, port, comm_addr, timeout, retries)", "        inv = ET(host, port, comm_addr, retries=retries, timeout=timeout)", "clean"),
+    ]
+
+
+def c06() -> List[M]:
+    UDP_FINALLY = "        finally:\n            if self._lock and self._lock.locked():\n                self._lock.release()\n            if not self.keep_alive:\n                self._close_transport()\n"
+    UDP_RETRY = "                self._retry += 1\n                if self._lock and self._lock.locked():\n                    self._lock.release()\n                if not self.keep_alive:\n                    self._close_transport()\n                return await self.send_request(command)"
+    return [
+        M("C06", "udp-finally-no-release", P, UDP_FINALLY, "        finally:\n            if not self.keep_alive:\n                self._close_transport()\n", "C06.R2"),
+        M("C06", "udp-retry-without-release", P, UDP_RETRY, "                self._retry += 1\n                if not self.keep_alive:\n                    self._close_transport()\n                return await self.send_request(command)", "C06.R3|C06.R2"),
+        M("C06", "tcp-close-no-release", P, "            self._close_transport()\n        finally:\n            if self._lock and self._lock.locked():\n                self._lock.release()\n\n\nclass ProtocolResponse",
+          "            self._close_transport()\n        finally:\n            pass\n\n\nclass ProtocolResponse", "C06.R2"),
+        M("C06", "udp-finally-unguarded-release", P, UDP_FINALLY, "        finally:\n            self._lock.release()\n            if not self.keep_alive:\n                self._close_transport()\n", "C06.R2"),
+        M("C06", "udp-retry-suspends-before-close", P, UDP_RETRY, "                self._retry += 1\n                if self._lock and self._lock.locked():\n                    self._lock.release()\n                await asyncio.sleep(0)\n                if not self.keep_alive:\n                    self._close_transport()\n                return await self.send_request(command)", "C06.R4"),
+        M("C06", "udp-finally-suspends-before-release", P, UDP_FINALLY, "        finally:\n            await asyncio.sleep(0)\n            if self._lock and self._lock.locked():\n                self._lock.release()\n            if not self.keep_alive:\n                self._close_transport()\n", "C06.R2|C06.R4"),
+        M("C06", "execute-suspends-before-close", P, "            if not protocol.keep_alive:\n                await protocol.close()", "            if not protocol.keep_alive:\n                await asyncio.sleep(0)\n                await protocol.close()", "C06.R4"),
+        M("C06", "udp-close-suspends", P, "    async def close(self):\n        self._close_transport()\n", "    async def close(self):\n        await asyncio.sleep(0)\n        self._close_transport()\n", "C06.R4"),
+        M("C06", "tcp-retry-sends-outside-lock", P, "                    self._lock.release()\n                self._close_transport()\n                return await self.send_request(command)", "                    self._lock.release()\n                self._send_request(command, asyncio.get_running_loop().create_future())\n                return await self.send_request(command)", "C06.R1|C06.R3"),
+        M("C06", "connect-rebinds-future", P, "    async def _connect(self) -> None:\n        if not self._transport or self._transport.is_closing():\n            self._transport, self.protocol = await asyncio.get_running_loop().create_datagram_endpoint(",
+          "    async def _connect(self) -> None:\n        self.response_future = None\n        if not self._transport or self._transport.is_closing():\n            self._transport, self.protocol = await asyncio.get_running_loop().create_datagram_endpoint(", "C06.R1"),
+        M("C06", "udp-awaits-shared-field", P, "            self._send_request(command, response_future)\n            await response_future\n            return response_future\n        except asyncio.CancelledError:\n            if self._retry < self.retries:\n                self._retry += 1",
+          "            self._send_request(command, response_future)\n            await self.response_future\n            return response_future\n        except asyncio.CancelledError:\n            if self._retry < self.retries:\n                self._retry += 1", "C06.R5"),
+        M("C06", "tcp-returns-shared-field", P, "            await response_future\n            return response_future\n        except asyncio.CancelledError:\n            if self._retry < self.retries:\n                if self._timer:",
+          "            await response_future\n            return self.response_future\n        except asyncio.CancelledError:\n            if self._retry < self.retries:\n                if self._timer:", "C06.R5"),
+        M("C06", "tcp-send-request-ignores-given-future", P, "        self.response_future = response_future\n        self._partial_data = None\n        self._partial_missing = 0\n        payload = command.request_bytes()\n        if self._retry > 0:\n            logger.debug(\"Sending: %s - retry #%s/%s\", self.command, self._retry, self.retries)\n        else:\n            logger.debug(\"Sending: %s\", self.command)\n        self._transport.write(payload)",
+          "        self.response_future = asyncio.get_running_loop().create_future()\n        self._partial_data = None\n        self._partial_missing = 0\n        payload = command.request_bytes()\n        if self._retry > 0:\n            logger.debug(\"Sending: %s - retry #%s/%s\", self.command, self._retry, self.retries)\n        else:\n            logger.debug(\"Sending: %s\", self.command)\n        self._transport.write(payload)", "C06.R5"),
+        M("C06", "benign-udp-finally-close-before-release", P, UDP_FINALLY, "        finally:\n            if not self.keep_alive:\n                self._close_transport()\n            if self._lock and self._lock.locked():\n                self._lock.release()\n", "clean"),
     ]
 
 
